@@ -37,7 +37,8 @@ def gen_cases(rng, n):
         sky = SKY[k % 3]
         cases.append(dict(N=N, sky=sky, kind=["single", "multi"][int(rng.integers(0, 2))], suffix=str(rng.choice(["", "_a", "_7"])),
                           back=float(rng.normal(0, 5)), xsl=float(rng.normal(0, 0.5)) if rng.random() < 0.8 else 0.0,
-                          ysl=float(rng.normal(0, 0.5)) if rng.random() < 0.8 else 0.0, guess=float(rng.normal(0, 3)),
+                          ysl=float(rng.normal(0, 0.5)) if rng.random() < 0.8 else 0.0, guess=float(rng.normal(0, 3)) if k % 4 else 0.0,
+                          mask=str(rng.choice(["none", "random", "half"])),
                           err=float(np.exp(rng.uniform(-3, 1))), psf_sum=float(rng.choice([1.0, 0.7, 1.6])), seed=int(rng.integers(0, 2 ** 31))))
     return cases
 
@@ -54,15 +55,16 @@ def real_eval(payload):
             N, sfx = c["N"], c["suffix"]
             data, rms, psf = U.make_images(rng, N)
             psf = psf * c["psf_sum"]
+            mask = U.make_mask(rng, N, c.get("mask", "none"))
             if c["kind"] == "single":
                 prior = U.source_prior("sersic", sky_type=c["sky"], suffix=sfx, xc=N / 2, yc=N / 2, sky_guess=c["guess"], sky_guess_err=c["err"])
-                f = U.pysersic.FitSingle(data, rms, psf, prior, renderer=U.RD.PixelRenderer)
+                f = U.pysersic.FitSingle(data, rms, psf, prior, mask=mask, renderer=U.RD.PixelRenderer)
                 sky_sfx = sfx
             else:
                 cat = dict(x=[N / 2 - 1.0, N / 2 + 1.5], y=[N / 2 + 1.0, N / 2 - 2.0], flux=[50.0, 20.0], r=[1.5, 2.0], type=["sersic", "pointsource"])
                 kw = dict(sky_guess=c["guess"], sky_guess_err=c["err"]) if c["sky"] != "none" else {}
                 prior = U.PR.PySersicMultiPrior(cat, sky_type=c["sky"], suffix=sfx, **kw)
-                f = U.pysersic.FitMulti(data, rms, psf, prior, renderer=U.RD.PixelRenderer)
+                f = U.pysersic.FitMulti(data, rms, psf, prior, mask=mask, renderer=U.RD.PixelRenderer)
                 sky_sfx = ""        # the multi-source prior builds its sky prior without the suffix
             model = f.build_model(return_model=True)
             lat, _ = U.sample_latents(model, seed=1)
